@@ -153,6 +153,9 @@ func (cs ClientState) UpgradeState(
 	store sdk.KVStore,
 	state exported.ConsensusState,
 ) error {
+	// the upgraded height needs the same metadata as an initial one (processed time for the delay check,
+	// iteration key for ordered pruning)
+	setConsensusMetadata(ctx, store, cs.GetLatestHeight())
 	return nil
 }
 
